@@ -265,11 +265,105 @@ theorem rk4_local_error_affine (a b c d y dt : α) :
     + (1 / 12) * a * c ^ 2 * d, ?_⟩
   ring
 
+/-! ### through the solver: exactness at the time the solver reports, for every step sequence
+
+`runX` / `solveX` (KawinV.Solver, Part 3) is the DESolver.solve loop with the state carried along:
+in every pass the iterator is given the step `stepDt` and the clock advances by that same step.
+If one step of the iterator integrates y' = g(t) exactly (adds G(t+dt) − G(t) for an antiderivative
+G), then after ANY run — every proposal function, every min/max step fraction, stop schedule,
+number of passes, also when the last step is the short remainder — the state handed to
+`postProcess` is exact AT THE TIME handed to `postProcess`: x = x0 + G(currTime) − G(t0). -/
+
+section through
+variable (tf dtmin : α) (propose : List α → Dt α) (stopAt : List α → Bool)
+
+theorem stepX_cur (iter : α → α → α → α) (s : St α × α) :
+    (stepX tf dtmin propose stopAt iter s).1.cur = s.1.cur + stepDt tf dtmin propose s.1 := rfl
+
+theorem stepX_state (iter : α → α → α → α) (s : St α × α) :
+    (stepX tf dtmin propose stopAt iter s).2 = iter (stepDt tf dtmin propose s.1) s.1.cur s.2 := rfl
+
+/-- loop invariant: `x − G(currTime)` never changes -/
+theorem runX_telescope (G : α → α) (iter : α → α → α → α)
+    (hiter : ∀ dt t x, iter dt t x = x + (G (t + dt) - G t)) (n : Nat) (s : St α × α) :
+    (runX tf dtmin propose stopAt iter n s).2 - G (runX tf dtmin propose stopAt iter n s).1.cur
+      = s.2 - G s.1.cur := by
+  induction n generalizing s with
+  | zero => rfl
+  | succ n ih =>
+    unfold runX
+    split_ifs with h
+    · rw [ih, stepX_state, stepX_cur, hiter]; ring
+    · rfl
+
+/-- **exact at the reported time, through the solver** -/
+theorem solveX_telescope (t0 minFrac maxFrac : α) (G : α → α) (iter : α → α → α → α)
+    (hiter : ∀ dt t x, iter dt t x = x + (G (t + dt) - G t)) (x0 : α) (fuel : Nat) :
+    (solveX t0 tf minFrac maxFrac propose stopAt iter x0 fuel).2
+      = x0 + (G (solveX t0 tf minFrac maxFrac propose stopAt iter x0 fuel).1.cur - G t0) := by
+  have := runX_telescope tf (minFrac * (tf - t0)) propose stopAt G iter hiter fuel (initSt t0 tf maxFrac, x0)
+  unfold solveX
+  simp only [initSt] at this ⊢
+  linarith
+
+/-- the explicit Euler iterator of the model on y' = c -/
+theorem eulerIter_const (c dt t x : α) :
+    (eulerIter scalarOps (fun _ _ => c) dt t x).xnew = x + ((fun s => c * s) (t + dt) - (fun s => c * s) t) := by
+  simp only [eulerIter, updateX, scalarOps]; ring
+
+/-- the Runge-Kutta iterator of the model on y' = a0 + a1 t + a2 t² + a3 t³ -/
+theorem rk4Iter_cubic (a0 a1 a2 a3 dt t x : α) :
+    (rk4Iter scalarOps (fun s _ => a0 + a1 * s + a2 * s ^ 2 + a3 * s ^ 3) dt t x).xnew
+      = x + ((fun s => a0 * s + a1 * s ^ 2 / 2 + a2 * s ^ 3 / 3 + a3 * s ^ 4 / 4) (t + dt)
+             - (fun s => a0 * s + a1 * s ^ 2 / 2 + a2 * s ^ 3 / 3 + a3 * s ^ 4 / 4) t) := by
+  rw [rk4Iter_eq_rkStep, rk4_quadrature (fun s => a0 + a1 * s + a2 * s ^ 2 + a3 * s ^ 3)]; ring
+
+/-- **Euler through the solver is exact on constants**: x = x0 + c·(currTime − t0) after any run -/
+theorem solve_euler_exact_const (t0 minFrac maxFrac c x0 : α) (fuel : Nat) :
+    (solveX t0 tf minFrac maxFrac propose stopAt
+        (fun dt t x => (eulerIter scalarOps (fun _ _ => c) dt t x).xnew) x0 fuel).2
+      = x0 + c * ((solveX t0 tf minFrac maxFrac propose stopAt
+        (fun dt t x => (eulerIter scalarOps (fun _ _ => c) dt t x).xnew) x0 fuel).1.cur - t0) := by
+  rw [solveX_telescope tf propose stopAt t0 minFrac maxFrac (fun s => c * s) _ (fun dt t x => eulerIter_const c dt t x)]
+  ring
+
+/-- **Runge-Kutta through the solver is exact on polynomials in t up to degree 3** -/
+theorem solve_rk4_exact_cubic (t0 minFrac maxFrac a0 a1 a2 a3 x0 : α) (fuel : Nat) :
+    let r := solveX t0 tf minFrac maxFrac propose stopAt
+        (fun dt t x => (rk4Iter scalarOps (fun s _ => a0 + a1 * s + a2 * s ^ 2 + a3 * s ^ 3) dt t x).xnew) x0 fuel
+    r.2 = x0 + (a0 * (r.1.cur - t0) + a1 * (r.1.cur ^ 2 - t0 ^ 2) / 2 + a2 * (r.1.cur ^ 3 - t0 ^ 3) / 3
+                + a3 * (r.1.cur ^ 4 - t0 ^ 4) / 4) := by
+  intro r
+  have := solveX_telescope tf propose stopAt t0 minFrac maxFrac
+    (fun s => a0 * s + a1 * s ^ 2 / 2 + a2 * s ^ 3 / 3 + a3 * s ^ 4 / 4) _
+    (fun dt t x => rk4Iter_cubic a0 a1 a2 a3 dt t x) x0 fuel
+  simp only [r]
+  rw [this]; ring
+
+/-- a clock that is moved without the state is not exact: if after a run the clock were set to
+another time `t'` while the state stays, exactness at the reported time fails whenever c ≠ 0 -/
+theorem moved_clock_not_exact (c x0 t0 cur t' : α) (hc : c ≠ 0) (ht : t' ≠ cur) :
+    x0 + c * (cur - t0) ≠ x0 + c * (t' - t0) := by
+  intro h
+  have h1 : c * (cur - t') = 0 := by linarith
+  rcases mul_eq_zero.mp h1 with h2 | h2
+  · exact hc h2
+  · exact ht (by linarith)
+
+end through
+
 /-! ### non-vacuity / concrete values -/
 
 example : rkStep (rk4T : Tableau ℚ) (fun s _ => 2 * s) 0 1 (1 / 2) = 5 / 4 := by
   rw [rk4_quadrature (fun s => 2 * s)]; norm_num
 example : rkStep (eulerT : Tableau ℚ) (fun _ u => 1 * u) 0 1 (1 / 2) = 3 / 2 := by
   rw [euler_linear_test (1 : ℚ)]; norm_num
+
+/-- through the solver over ℚ: y' = 3t², y(1) = 2, t0 = 1, tf = 3, steps 3/4, 3/4 and the short remainder 1/2
+(min fraction 1/4, proposals 3/4): the end state is 2 + 3³ − 1³ = 28 exactly -/
+example :
+    (solveX (1 : ℚ) 3 (1/4) 1 (fun _ => .fin (3/4)) (fun _ => false)
+      (fun dt t x => (rk4Iter scalarOps (fun s _ => 0 + 0 * s + 3 * s ^ 2 + 0 * s ^ 3) dt t x).xnew) 2 10).2 = 28 := by
+  decide +kernel
 
 end KawinV.Props.C06
